@@ -1,7 +1,7 @@
 SPECIFICATION TSpec
 CONSTANTS
   MaxOps = 1000000
-  UnitKinds = {"set32", "set64", "getp", "getq"}
+  UnitKinds = {"set32", "set64", "getp", "getq", "tcopy", "mcopy", "tinit", "minit"}
   MaxPos = 3
   Sigs = {1, 2}
 CONSTRAINT Record
